@@ -345,6 +345,20 @@ fn linear<F: Scalar>(p: &Params) {
         }
     }
     check_bool("rows of a reordered / extended matrix get the images they had in the training matrix (identical)", moved || (mutk == 4 && n == 1));
+    // the same matrix in other memory layouts: column-major, and an owned array cut out of a wider one
+    {
+        use ndarray::ShapeBuilder;
+        let mut cm = Array2::from_elem((n, pc).f(), zero);
+        cm.assign(&x);
+        let mut wide = Array2::from_elem((n, pc + 1), zero);
+        wide.slice_mut(ndarray::s![.., ..pc]).assign(&x);
+        let cut = wide.slice_move(ndarray::s![.., ..pc]);
+        let mut same_layout = true;
+        for v in [scaler.transform(cm), scaler.transform(cut)] {
+            same_layout = same_layout && v.dim() == (n, pc) && (0..n).all(|i| (0..pc).all(|j| v[(i, j)].identical(out[(i, j)])));
+        }
+        check_bool("the image does not depend on the memory layout of the records (column-major, strided)", same_layout);
+    }
     if oy.dim() == (n + 1, pc) {
         let alone = scaler.transform(Array2::from_shape_fn((1, pc), |(_, j)| z[j]));
         let mut same_alone = alone.dim() == (1, pc);
@@ -459,6 +473,20 @@ fn norm<F: Scalar>(p: &Params) {
         }
     }
     check_bool("norm: every row has the same image in a reordered matrix and alone (identical)", moved || (mutk == 4 && n == 1));
+    {
+        use ndarray::ShapeBuilder;
+        let mut cm = Array2::from_elem((n, pc).f(), zero);
+        cm.assign(&x);
+        let mut wide = Array2::from_elem((n, pc + 1), zero);
+        wide.slice_mut(ndarray::s![.., ..pc]).assign(&x);
+        let cut = wide.slice_move(ndarray::s![.., ..pc]);
+        let same_bits = |a: F, b: F| a.identical(b) || (NF::is_nan(a) && NF::is_nan(b));
+        let mut same_layout = true;
+        for v in [scaler.transform(cm), scaler.transform(cut)] {
+            same_layout = same_layout && v.dim() == (n, pc) && (0..n).all(|i| (0..pc).all(|j| same_bits(v[(i, j)], out[(i, j)])));
+        }
+        check_bool("norm: the image does not depend on the memory layout of the records (column-major, strided)", same_layout);
+    }
 }
 
 /// degenerate inputs (concrete shapes, one path)
